@@ -101,9 +101,9 @@ Lemma minus3_cases s v d a :
      0 <= zget (deff s) d - a).
 Proof.
   unfold minus3.
-  destruct (zget (vtot s) v - a <? 0); [left; reflexivity|].
-  destruct (zget (eff s) (v, d) - a <? 0); [right; left; eexists; reflexivity|].
-  destruct (zget (deff s) d - a <? 0) eqn:E; [right; right; left; eexists; reflexivity|].
+  destruct (zget (vtot s) v - a <? 0) eqn:E1; [left; reflexivity|].
+  destruct (zget (eff s) (v, d) - a <? 0) eqn:E2; [left; reflexivity|].
+  destruct (zget (deff s) d - a <? 0) eqn:E3; [left; reflexivity|].
   right; right; right. eexists. split; [reflexivity|]. simpl. repeat split; try reflexivity. lia.
 Qed.
 
@@ -120,7 +120,7 @@ Proof.
   intros Hs. unfold do_unstake. destruct (negb (validate_unstake s v d a)); [exact Hs|]. destruct (negb (amount_ok a)); [exact Hs|].
   destruct fz; [exact Hs|]. destruct ro; [exact Hs|].
   destruct (minus3_cases s v d a) as [E|[[s1 E]|[[s1 E]|[s3 [E (E1 & E2 & E3 & _)]]]]]; rewrite E; try exact Hs.
-  destruct (vrecs s !! v); [|exact Hs]. destruct pb; [exact Hs|]. destruct ff; [exact Hs|].
+  destruct (vrecs s !! v) as [r0|]; [|exact Hs]. destruct (vr_staking r0 - a <? 0); [exact Hs|]. destruct pb; [exact Hs|]. destruct ff; [exact Hs|].
   simpl. eapply (sums_ok_delta s _ v d (- a)); simpl; try eassumption.
 Qed.
 
@@ -148,36 +148,42 @@ Proof.
   apply andb_true_iff in Ha as [H1 H2]. apply IH; [exact H2|]. apply sums_ok_verdict; assumption.
 Qed.
 
-Lemma sums_ok_step s o : trig_penalty_not_atomic s o = false -> sums_ok s -> sums_ok (fst (step s o)).
+Lemma verdict_atomic_true s e : verdict_atomic s e = true.
 Proof.
-  intros Ht Hs. destruct o; simpl.
+  destruct e as [[v pct] dec]. unfold verdict_atomic. destruct (vprev s !! v) as [r|]; [|reflexivity].
+  unfold minus3. destruct (_ || _ || _); reflexivity.
+Qed.
+
+Lemma verdicts_atomic_true vs : forall s, verdicts_atomic s vs = true.
+Proof. induction vs as [|e vs IH]; intros s; simpl; [reflexivity|]. rewrite verdict_atomic_true, IH. reflexivity. Qed.
+
+Lemma sums_ok_step s o : sums_ok s -> sums_ok (fst (step s o)).
+Proof.
+  intros Hs. destruct o; simpl.
   - apply sums_ok_stake; exact Hs.
   - apply sums_ok_unstake; exact Hs.
   - apply sums_ok_withdraw; exact Hs.
   - eapply sums_ok_ext; [| | |exact Hs]; reflexivity.
-  - unfold do_end. simpl in Ht. destruct (h <=? 1) eqn:Eh.
+  - unfold do_end. destruct (h <=? 1) eqn:Eh.
     + eapply sums_ok_ext; [| | |exact Hs]; reflexivity.
-    + assert (1 <? h = true) as Eh' by lia. rewrite Eh' in Ht. simpl in Ht.
-      apply negb_false_iff in Ht.
-      eapply sums_ok_ext; [reflexivity|reflexivity|reflexivity|].
-      apply sums_ok_verdicts; [exact Ht|].
+    + eapply sums_ok_ext; [reflexivity|reflexivity|reflexivity|].
+      apply sums_ok_verdicts; [apply verdicts_atomic_true|].
       eapply sums_ok_ext; [| | |exact Hs]; reflexivity.
   - unfold do_genstake. eapply (sums_ok_delta s _ v d a); try reflexivity. exact Hs.
   - eapply sums_ok_ext; [| | |exact Hs]; reflexivity.
 Qed.
 
-Lemma sums_ok_run os : forall s, guarded trig_penalty_not_atomic s os = true -> sums_ok s -> sums_ok (run s os).
+Lemma sums_ok_run os : forall s, sums_ok s -> sums_ok (run s os).
 Proof.
-  induction os as [|o os IH]; intros s Hg Hs; simpl in *; [exact Hs|].
-  apply andb_true_iff in Hg as [H1 H2]. apply negb_true_iff in H1.
-  apply IH; [exact H2|]. apply sums_ok_step; assumption.
+  induction os as [|o os IH]; intros s Hs; simpl in *; [exact Hs|].
+  apply IH. apply sums_ok_step; assumption.
 Qed.
 
-Theorem validator_total_partial os :
-  guarded trig_penalty_not_atomic empty_state os = true ->
+(* since fix cb71748 (atomic penalty) for EVERY history, without any guard *)
+Theorem validator_total os :
   let s := run empty_state os in
   (forall v, zget (vtot s) v = esum_v s v) /\ (forall d, zget (deff s) d = esum_d s d).
-Proof. intros Hg. apply sums_ok_run; [exact Hg|apply sums_ok_empty]. Qed.
+Proof. apply sums_ok_run. apply sums_ok_empty. Qed.
 
 (* ---------- C11_frozen ---------- *)
 Theorem frozen_no_effect s v d a bal h m ro pb ff :
@@ -198,7 +204,7 @@ Theorem unstake_entry s v d a ro h m pb ff s' :
 Proof.
   simpl. unfold do_unstake. destruct (negb (validate_unstake s v d a)); [discriminate|]. destruct (negb (amount_ok a)); [discriminate|]. destruct ro; [discriminate|].
   destruct (minus3_cases s v d a) as [E|[[s1 E]|[[s1 E]|[s3 [E (_ & _ & _ & Eb & Em & _)]]]]]; rewrite E; try discriminate.
-  destruct (vrecs s !! v); [|discriminate]. destruct pb; [discriminate|]. destruct ff; [discriminate|].
+  destruct (vrecs s !! v) as [r0|]; [|discriminate]. destruct (vr_staking r0 - a <? 0); [discriminate|]. destruct pb; [discriminate|]. destruct ff; [discriminate|].
   intros Heq. inversion Heq; subst; clear Heq. simpl. unfold mat_at. simpl. rewrite Em, Eb. split; reflexivity.
 Qed.
 
@@ -215,7 +221,7 @@ Proof.
   - unfold do_unstake. destruct (negb (validate_unstake s v d a)); [simpl; lia|]. destruct (negb (amount_ok a)); [simpl; lia|].
     destruct frozen; [simpl; lia|]. destruct req_open; [simpl; lia|].
     destruct (minus3_cases s v d a) as [E|[[s1 E]|[[s1 E]|[s3 [E (_ & _ & _ & Eb & _)]]]]]; rewrite E; try (simpl; lia).
-    destruct (vrecs s !! v); [|simpl; lia]. destruct purge_block; [simpl; lia|]. destruct fee_fail; simpl; [lia|]. rewrite Eb. lia.
+    destruct (vrecs s !! v) as [r0|]; [|simpl; lia]. destruct (vr_staking r0 - a <? 0); [simpl; lia|]. destruct purge_block; [simpl; lia|]. destruct fee_fail; simpl; [lia|]. rewrite Eb. lia.
   - unfold do_withdraw. destruct (negb (validate_unstake s v d a)); [simpl; lia|]. destruct (negb (amount_ok a)) eqn:Ea; [simpl; lia|].
     destruct frozen; [simpl; lia|]. destruct (zget (dbnd s) d - a <? 0); [simpl; lia|].
     destruct fee_fail; simpl; [lia|]. unfold amount_ok in Ea.
@@ -292,9 +298,9 @@ Lemma minus3_frame s v d a s1 n :
   ((n <> 3%nat /\ deff s1 = deff s) \/ (n = 3%nat /\ deff s1 = zadd d (- a) (deff s) /\ 0 <= zget (deff s) d - a)).
 Proof.
   unfold minus3.
-  destruct (zget (vtot s) v - a <? 0); [intros E; inversion E; subst; repeat split; left; split; [lia|reflexivity]|].
-  destruct (zget (eff s) (v, d) - a <? 0); [intros E; inversion E; subst; simpl; repeat split; left; split; [lia|reflexivity]|].
-  destruct (zget (deff s) d - a <? 0) eqn:E3; [intros E; inversion E; subst; simpl; repeat split; left; split; [lia|reflexivity]|].
+  destruct (zget (vtot s) v - a <? 0) eqn:E1; [intros E; inversion E; subst; repeat split; left; split; [lia|reflexivity]|].
+  destruct (zget (eff s) (v, d) - a <? 0) eqn:E2; [intros E; inversion E; subst; repeat split; left; split; [lia|reflexivity]|].
+  destruct (zget (deff s) d - a <? 0) eqn:E3; [intros E; inversion E; subst; repeat split; left; split; [lia|reflexivity]|].
   intros E; inversion E; subst; simpl. repeat split. right. repeat split. lia.
 Qed.
 
@@ -340,7 +346,7 @@ Proof.
   destruct fz; [exact Hs|]. destruct ro; [exact Hs|].
   destruct (minus3 s v d a) as [s1 n] eqn:E. destruct (minus3_frame _ _ _ _ _ _ E) as (Fb & Fm & F1 & F2 & F3 & F4 & F5 & Fd).
   destruct n as [|[|[|[|n]]]]; try exact Hs.
-  destruct (vrecs s !! v); [|exact Hs]. destruct pb; [exact Hs|]. destruct ff; [exact Hs|].
+  destruct (vrecs s !! v) as [r0|]; [|exact Hs]. destruct (vr_staking r0 - a <? 0); [exact Hs|]. destruct pb; [exact Hs|]. destruct ff; [exact Hs|].
   destruct Fd as [[Hn _]|(_ & Fd & Hge)]; [contradiction|].
   destruct Hs as (HC & (Hd & Hb & Hm) & HB). simpl.
   assert (0 <= a) by (unfold amount_ok in Ea; lia).
@@ -482,4 +488,254 @@ Proof.
   specialize (HC d). specialize (Hd d). specialize (Hb d). destruct (HB d) as [B1 B2].
   assert (0 < base) by (unfold base; lia).
   repeat split; try lia; rewrite B1, B2; nia.
+Qed.
+
+(* ---------- C11_validator_record : v_ record stake = st__t_ (+ penalty awaiting BeginBlock) ---------- *)
+(* assumptions of the theorem, as boolean predicates over (state, operation) *)
+Definition rec_staking (s : state) (v : addr) : Z := match vrecs s !! v with Some r => vr_staking r | None => 0 end.
+(* the stake of one validator record stays below 2^63 whole OLT (calculatePower narrows to int64) *)
+Definition stake_overflow (s : state) (o : op) : bool :=
+  match o with
+  | OStake v _ a _ _ _ _ _ _ | OGenStake v _ a => 2 ^ 63 <=? rec_staking s v + a
+  | _ => false
+  end.
+(* evidence options: PenaltyBasePercentage >= 0, PenaltyBaseDecimals > 0 *)
+Definition verdict_params_ok (o : op) : bool :=
+  match o with OEnd _ vs => forallb (fun e => (0 <=? e.1.2) && (0 <? e.2)) vs | _ => true end.
+Definition record_trig (s : state) (o : op) : bool :=
+  negb (gen_nonneg o) || stake_overflow s o || negb (verdict_params_ok o) || trig_postponed_blocked s o.
+
+Definition rec_ok (s : state) (v : addr) : Prop :=
+  match vrecs s !! v with
+  | Some r => vr_staking r = zget (vtot s) v + entries_of (pend s) v /\ vr_power r = wrap64 (vr_staking r) /\ vr_staking r < 2 ^ 63
+  | None => zget (vtot s) v = 0 /\ entries_of (pend s) v = 0
+  end.
+Definition rec_inv (s : state) : Prop :=
+  (forall v, 0 <= zget (vtot s) v) /\ Forall (fun e => 0 <= e.2) (pend s) /\ (forall v, rec_ok s v).
+
+Lemma rec_inv_frame s s' :
+  vtot s' = vtot s -> pend s' = pend s -> vrecs s' = vrecs s -> rec_inv s -> rec_inv s'.
+Proof. intros E1 E2 E3 (H1 & H2 & H3). unfold rec_inv, rec_ok in *. rewrite E1, E2, E3. auto. Qed.
+
+Lemma rec_inv_update s s' v r' x :
+  vtot s' = zadd v x (vtot s) -> pend s' = pend s -> vrecs s' = <[v := r']> (vrecs s) ->
+  0 <= zget (vtot s) v + x ->
+  vr_staking r' = zget (vtot s) v + x + entries_of (pend s) v -> vr_power r' = wrap64 (vr_staking r') -> vr_staking r' < 2 ^ 63 ->
+  rec_inv s -> rec_inv s'.
+Proof.
+  intros E1 E2 E3 Hx Hs Hp Hb (H1 & H2 & H3). unfold rec_inv, rec_ok in *. rewrite E1, E2, E3. split; [|split; [exact H2|]].
+  - intros v'. rewrite zget_zadd. destruct (decide (v = v')) as [->|]; [lia|apply H1].
+  - intros v'. rewrite zget_zadd. destruct (decide (v = v')) as [->|Hne].
+    + rewrite lookup_insert. auto.
+    + rewrite lookup_insert_ne by exact Hne. apply H3.
+Qed.
+
+Lemma minus3_atomic s v d a :
+  minus3 s v d a = (s, 0%nat) \/
+  exists s3, minus3 s v d a = (s3, 3%nat) /\ vtot s3 = zadd v (- a) (vtot s) /\ pend s3 = pend s /\ vrecs s3 = vrecs s /\
+             0 <= zget (vtot s) v - a.
+Proof.
+  unfold minus3.
+  destruct (zget (vtot s) v - a <? 0) eqn:E1; [left; reflexivity|].
+  destruct (zget (eff s) (v, d) - a <? 0) eqn:E2; [left; reflexivity|].
+  destruct (zget (deff s) d - a <? 0) eqn:E3; [left; reflexivity|].
+  right. eexists. split; [reflexivity|]. simpl. repeat split. lia.
+Qed.
+
+Lemma rec_inv_empty : rec_inv empty_state.
+Proof.
+  split; [|split].
+  - intros v. simpl. unfold zget. rewrite lookup_empty. simpl. lia.
+  - constructor.
+  - intros v. unfold rec_ok. simpl. rewrite lookup_empty. unfold zget. rewrite lookup_empty. simpl. split; reflexivity.
+Qed.
+
+Lemma rec_inv_stake_like s v d a u (s' : state) :
+  vtot s' = zadd v a (vtot s) -> pend s' = pend s -> vrecs s' = <[v := stake_rec s v d a u]> (vrecs s) ->
+  0 <= a -> rec_staking s v + a < 2 ^ 63 -> rec_inv s -> rec_inv s'.
+Proof.
+  intros E1 E2 E3 Ha Hb Hs. pose proof Hs as (H1 & H2 & H3).
+  specialize (H3 v). specialize (H1 v). unfold rec_ok in H3. unfold rec_staking in Hb. unfold stake_rec in E3.
+  destruct (vrecs s !! v) as [r|] eqn:Er.
+  - destruct H3 as (S1 & S2 & S3). eapply (rec_inv_update s s' v _ a); try eassumption; simpl; try lia; try reflexivity.
+  - destruct H3 as (S1 & S2). eapply (rec_inv_update s s' v _ a); try eassumption; simpl; try lia; try reflexivity.
+Qed.
+
+Lemma rec_inv_stake s v d a fz bal h m pb ff :
+  stake_overflow s (OStake v d a fz bal h m pb ff) = false -> rec_inv s -> rec_inv (fst (do_stake s v d a fz bal h m pb ff)).
+Proof.
+  intros Ho Hs. unfold do_stake. destruct (negb (validate_stake a bal)); [exact Hs|].
+  destruct (amount_ok a) eqn:Ea; simpl; [|exact Hs].
+  destruct fz; [exact Hs|]. destruct (stake_update s v d h m) as [u|]; [|exact Hs].
+  destruct (bal - debit_of a <? 0); [exact Hs|]. destruct pb; [exact Hs|]. destruct ff; [exact Hs|].
+  simpl. simpl in Ho. unfold amount_ok in Ea.
+  eapply (rec_inv_stake_like s v d a u); try reflexivity; try lia. exact Hs.
+Qed.
+
+Lemma rec_inv_unstake s v d a fz ro h m pb ff : rec_inv s -> rec_inv (fst (do_unstake s v d a fz ro h m pb ff)).
+Proof.
+  intros Hs. unfold do_unstake. destruct (negb (validate_unstake s v d a)); [exact Hs|].
+  destruct (amount_ok a) eqn:Ea; simpl; [|exact Hs].
+  destruct fz; [exact Hs|]. destruct ro; [exact Hs|].
+  destruct (minus3_atomic s v d a) as [E|(s3 & E & Ev & Ep & Er & Hge)]; rewrite E; [exact Hs|].
+  destruct (vrecs s !! v) as [r|] eqn:Erec; [|exact Hs]. destruct (vr_staking r - a <? 0) eqn:Eneg; [exact Hs|].
+  destruct pb; [exact Hs|]. destruct ff; [exact Hs|]. simpl.
+  pose proof Hs as (H1 & H2 & H3). specialize (H3 v). unfold rec_ok in H3. rewrite Erec in H3. destruct H3 as (S1 & S2 & S3).
+  unfold amount_ok in Ea.
+  eapply (rec_inv_update s _ v (VRec (vr_saddr r) (vr_staking r - a) (wrap64 (vr_staking r - a))) (- a));
+    simpl; try reflexivity; try lia; try assumption.
+  rewrite Er. reflexivity.
+Qed.
+
+Lemma apply_pending_fold blocked l : 
+  Forall (fun e => 0 <= e.2) l -> Forall (fun e => e.1 ∉ blocked) l ->
+  forall (recs : gmap addr vrec) (X : addr -> Z),
+    (forall v, 0 <= X v) ->
+    (forall v r, recs !! v = Some r -> vr_staking r = X v + entries_of l v /\ vr_power r = wrap64 (vr_staking r) /\ vr_staking r < 2 ^ 63) ->
+    forall v, match foldr (apply_pending blocked) recs l !! v with
+              | Some r => vr_staking r = X v /\ vr_power r = wrap64 (vr_staking r) /\ vr_staking r < 2 ^ 63
+              | None => recs !! v = None
+              end.
+Proof.
+  induction 1 as [|[ev ep] l Hep Hl IH]; intros Hbl recs X HX Hrec v.
+  - simpl. destruct (recs !! v) as [r|] eqn:E; [|reflexivity]. destruct (Hrec v r E) as (S1 & S2 & S3). simpl in S1. repeat split; [lia|exact S2|exact S3].
+  - inversion Hbl as [|? ? Hb1 Hb2]; subst. simpl in Hep, Hb1. simpl foldr.
+    set (X' := fun v => X v + (if Pos.eqb ev v then ep else 0)).
+    assert (forall v, 0 <= X' v) as HX' by (intros v0; unfold X'; specialize (HX v0); destruct (Pos.eqb ev v0); lia).
+    assert (forall v r, recs !! v = Some r -> vr_staking r = X' v + entries_of l v /\ vr_power r = wrap64 (vr_staking r) /\ vr_staking r < 2 ^ 63) as Hrec'.
+    { intros v0 r0 E0. destruct (Hrec v0 r0 E0) as (S1 & S2 & S3). simpl in S1. unfold X'. repeat split; [|exact S2|exact S3].
+      destruct (Pos.eqb ev v0); lia. }
+    pose proof (IH Hb2 recs X' HX' Hrec') as Hin. set (inner := foldr (apply_pending blocked) recs l) in *.
+    unfold apply_pending. simpl.
+    destruct (inner !! ev) as [r0|] eqn:E0.
+    + rewrite bool_decide_eq_false_2 by exact Hb1.
+      pose proof (Hin ev) as Hev. rewrite E0 in Hev. destruct Hev as (T1 & T2 & T3). unfold X' in T1. rewrite Pos.eqb_refl in T1.
+      destruct (vr_staking r0 - ep <? 0) eqn:En; [specialize (HX ev); lia|].
+      destruct (decide (ev = v)) as [->|Hne].
+      * rewrite lookup_insert. simpl. specialize (HX v). repeat split; lia.
+      * rewrite lookup_insert_ne by exact Hne. specialize (Hin v). destruct (inner !! v); [|exact Hin].
+        unfold X' in Hin. destruct (Pos.eqb_spec ev v); [contradiction|]. destruct Hin as (U1 & U2 & U3). repeat split; [lia|exact U2|exact U3].
+    + specialize (Hin v). destruct (inner !! v) as [r1|] eqn:E1; [|exact Hin].
+      unfold X' in Hin. destruct (Pos.eqb_spec ev v) as [->|]; [rewrite E0 in E1; discriminate|].
+      destruct Hin as (U1 & U2 & U3). repeat split; [lia|exact U2|exact U3].
+Qed.
+
+Lemma rec_inv_begin s blocked : trig_postponed_blocked s (OBegin blocked) = false -> rec_inv s -> rec_inv (do_begin s blocked).
+Proof.
+  intros Ht (H1 & H2 & H3). simpl in Ht.
+  assert (Forall (fun e => e.1 ∉ blocked) (pend s)) as Hbl.
+  { apply Forall_forall. intros e He Hin.
+    assert (existsb (fun e => bool_decide (e.1 ∈ blocked)) (pend s) = true) as Hx.
+    { apply existsb_exists. exists e. split; [apply elem_of_list_In; exact He|apply bool_decide_eq_true_2; exact Hin]. }
+    rewrite Hx in Ht. discriminate. }
+  pose proof (apply_pending_fold blocked (pend s) H2 Hbl (vrecs s) (fun v => zget (vtot s) v) H1) as Hf.
+  assert (forall v r, vrecs s !! v = Some r -> vr_staking r = zget (vtot s) v + entries_of (pend s) v /\ vr_power r = wrap64 (vr_staking r) /\ vr_staking r < 2 ^ 63) as Hrec.
+  { intros v r E. specialize (H3 v). unfold rec_ok in H3. rewrite E in H3. exact H3. }
+  specialize (Hf Hrec).
+  split; [exact H1|split; [constructor|]].
+  intros v. unfold rec_ok, do_begin. simpl. specialize (Hf v).
+  destruct (foldr (apply_pending blocked) (vrecs s) (pend s) !! v) as [r|].
+  - destruct Hf as (S1 & S2 & S3). repeat split; [lia|exact S2|exact S3].
+  - specialize (H3 v). unfold rec_ok in H3. rewrite Hf in H3. destruct H3 as [Z1 _]. split; [exact Z1|reflexivity].
+Qed.
+
+Lemma delete_powerless_spec prev recs v :
+  delete_powerless prev recs !! v = recs !! v \/ (delete_powerless prev recs !! v = None /\ powerless_now recs v = true).
+Proof.
+  unfold delete_powerless. induction (map_to_list prev) as [|e l IH]; simpl; [left; reflexivity|].
+  destruct ((vr_power e.2 <=? 0) && powerless_now recs e.1) eqn:E; [|exact IH].
+  apply andb_true_iff in E as [_ E]. destruct (decide (e.1 = v)) as [<-|Hne].
+  - right. rewrite lookup_delete. split; [reflexivity|exact E].
+  - rewrite lookup_delete_ne by exact Hne. exact IH.
+Qed.
+
+Lemma rec_inv_delete s (s' : state) :
+  vtot s' = vtot s -> pend s' = pend s -> vrecs s' = delete_powerless (vprev s) (vrecs s) -> rec_inv s -> rec_inv s'.
+Proof.
+  intros E1 E2 E3 (H1 & H2 & H3). unfold rec_inv, rec_ok in *. rewrite E1, E2, E3. split; [exact H1|split; [exact H2|]].
+  intros v. destruct (delete_powerless_spec (vprev s) (vrecs s) v) as [->|[-> Hp]]; [apply H3|].
+  specialize (H3 v). unfold powerless_now in Hp. destruct (vrecs s !! v) as [r|]; [|discriminate].
+  destruct H3 as (S1 & S2 & S3). pose proof (entries_of_nonneg _ v H2) as He. specialize (H1 v).
+  assert (amount_ok (vr_staking r) = true) as Hok by (unfold amount_ok; lia).
+  rewrite S2, (wrap64_small _ Hok) in Hp. lia.
+Qed.
+
+Lemma penalty_nonneg t pct dec : 0 <= t -> 0 <= pct -> 0 < dec -> 0 <= penalty_amount t pct dec.
+Proof. intros. unfold penalty_amount. apply Z.quot_pos; nia. Qed.
+
+Lemma penalty_zero pct dec : 0 < dec -> penalty_amount 0 pct dec = 0.
+Proof. intros. unfold penalty_amount. apply Z.quot_small. lia. Qed.
+
+Lemma rec_inv_verdict s e : (0 <=? e.1.2) && (0 <? e.2) = true -> rec_inv s -> rec_inv (verdict s e).
+Proof.
+  destruct e as [[v pct] dec]. simpl. intros Hp Hs. unfold verdict.
+  destruct (vprev s !! v) as [r|]; [|exact Hs].
+  pose proof Hs as (H1 & H2 & H3).
+  set (p := penalty_amount (zget (vtot s) v) pct dec).
+  assert (0 <= p) as Hp0 by (apply penalty_nonneg; [apply H1|lia|lia]).
+  destruct (minus3_atomic s v (vr_saddr r) p) as [E|(s3 & E & Ev & Epd & Er & Hge)]; rewrite E.
+  - eapply rec_inv_frame; [..|exact Hs]; reflexivity.
+  - unfold rec_inv, rec_ok. simpl. rewrite Ev, Epd, Er. split; [|split].
+    + intros v'. rewrite zget_zadd. destruct (decide (v = v')) as [->|]; [lia|apply H1].
+    + constructor; [simpl; lia|exact H2].
+    + intros v'. specialize (H3 v'). unfold rec_ok in H3. rewrite zget_zadd. simpl.
+      destruct (decide (v = v')) as [->|Hne].
+      * rewrite Pos.eqb_refl. destruct (vrecs s !! v') as [r1|].
+        -- destruct H3 as (S1 & S2 & S3). repeat split; [lia|exact S2|exact S3].
+        -- destruct H3 as (Z1 & Z2). assert (p = 0) as -> by (unfold p; rewrite Z1; apply penalty_zero; lia). split; lia.
+      * destruct (Pos.eqb_spec v v'); [contradiction|]. exact H3.
+Qed.
+
+Lemma rec_inv_verdicts vs : forall s, forallb (fun e => (0 <=? e.1.2) && (0 <? e.2)) vs = true -> rec_inv s -> rec_inv (fold_left verdict vs s).
+Proof.
+  induction vs as [|e vs IH]; intros s Hp Hs; simpl in *; [exact Hs|].
+  apply andb_true_iff in Hp as [P1 P2]. apply IH; [exact P2|]. apply rec_inv_verdict; assumption.
+Qed.
+
+Lemma rec_inv_step s o : record_trig s o = false -> rec_inv s -> rec_inv (fst (step s o)).
+Proof.
+  unfold record_trig. intros Ht Hs.
+  apply orb_false_iff in Ht as [Ht T4]. apply orb_false_iff in Ht as [Ht T3]. apply orb_false_iff in Ht as [T1 T2].
+  apply negb_false_iff in T1. apply negb_false_iff in T3.
+  destruct o; simpl.
+  - apply rec_inv_stake; assumption.
+  - apply rec_inv_unstake; assumption.
+  - unfold do_withdraw. destruct (negb (validate_unstake s v d a)); [exact Hs|]. destruct (negb (amount_ok a)); [exact Hs|].
+    destruct frozen; [exact Hs|]. destruct (zget (dbnd s) d - a <? 0); [exact Hs|]. destruct fee_fail; [exact Hs|].
+    eapply rec_inv_frame; [..|exact Hs]; reflexivity.
+  - apply rec_inv_begin; assumption.
+  - unfold do_end. destruct (h <=? 1).
+    + eapply rec_inv_frame; [..|exact Hs]; reflexivity.
+    + eapply rec_inv_frame; [reflexivity..|]. simpl in T3. apply rec_inv_verdicts; [exact T3|].
+      eapply rec_inv_frame; [reflexivity..|]. eapply rec_inv_delete; [..|exact Hs]; reflexivity.
+  - simpl in T1, T2. unfold do_genstake.
+    eapply rec_inv_frame; [reflexivity..|].
+    eapply (rec_inv_stake_like s v d a false); try reflexivity; try lia. exact Hs.
+  - eapply rec_inv_frame; [..|exact Hs]; reflexivity.
+Qed.
+
+Lemma rec_inv_run os : forall s, guarded record_trig s os = true -> rec_inv s -> rec_inv (run s os).
+Proof.
+  induction os as [|o os IH]; intros s Hg Hs; simpl in *; [exact Hs|].
+  apply andb_true_iff in Hg as [H1 H2]. apply negb_true_iff in H1. apply IH; [exact H2|]. apply rec_inv_step; assumption.
+Qed.
+
+(* the validator's recorded stake equals the validator total plus the penalty decided in the last
+   end-block and not yet applied to the record (applied by the next BeginBlock: then pend = []),
+   its power equals its stake, and a validator without a record has no locked stake *)
+Theorem validator_record os :
+  guarded record_trig empty_state os = true ->
+  let s := run empty_state os in
+  forall v,
+    match vrecs s !! v with
+    | Some r => vr_staking r = zget (vtot s) v + entries_of (pend s) v /\ vr_power r = vr_staking r /\ 0 <= vr_staking r
+    | None => zget (vtot s) v = 0
+    end.
+Proof.
+  intros Hg s v. destruct (rec_inv_run os empty_state Hg rec_inv_empty) as (H1 & H2 & H3). fold s in H1, H2, H3.
+  specialize (H3 v). unfold rec_ok in H3. destruct (vrecs s !! v) as [r|].
+  - destruct H3 as (S1 & S2 & S3). pose proof (entries_of_nonneg _ v H2). specialize (H1 v).
+    assert (amount_ok (vr_staking r) = true) as Hok by (unfold amount_ok; lia).
+    rewrite (wrap64_small _ Hok) in S2. repeat split; [exact S1|exact S2|lia].
+  - apply H3.
 Qed.
